@@ -172,6 +172,8 @@ async def watcher(
     scheduler = aiotasks.Scheduler(limit=settings.queueing.worker_limit,
                                    exception_handler=exception_handler)
     streams: dict[ObjectRef, Stream] = {}
+    if veriftrace.enabled:
+        veriftrace.emit('q.start', res=resource.plural, ns=namespace, sched=id(scheduler))
 
     try:
         # Either use the existing object's queue, or create a new one together with the per-object job.
@@ -402,7 +404,7 @@ async def _wait_for_depletion(
     for stream in streams.values():
         await stream.backlog.put(EOS.token)
     if veriftrace.enabled:
-        veriftrace.emit('q.depleting', streams=len(streams))
+        veriftrace.emit('q.depleting', streams=len(streams), sched=id(scheduler))
 
     # Wait for the queues to be depleted, but only if there are some workers running.
     # Continue with the tasks termination if the timeout is reached, no matter the queues.
